@@ -524,3 +524,36 @@ def make_dict_boundary_frames(rng, count, dinfo, name_dict=True):
         out.append({'frame': f, 'content': expect, 'params': {'wlog': wlog}, 'cls': 'synthetic-dict', 'producer': 'synthetic',
                     'features': sorted(feats), 'named': name_dict})
     return out
+
+
+def make_wide_sequence_frames(rng):
+    """frames with more than 64 MiB of history (RLE blocks) followed by one sequence whose offset code, match length
+    and literal length need more than 56 extra bits together (offset code 26, 15/16 and 16/15 bits for the lengths):
+    -> [{'frame', 'length', 'xxh'(of the content), 'features'}]"""
+    from xxh64 import xxh64
+    out = []
+    for (ll, ml) in ((65536 + rng.range(1, 20000), 32771 + rng.range(1, 10000)), (32768 + rng.range(1, 10000), 65539 + rng.range(1, 20000))):
+        nrle = 513
+        body = b''
+        content = bytearray()
+        for i in range(nrle):
+            b = (i * 7 + 1) % 251
+            body += block_header(0, 1, 131072) + bytes([b])
+            content += bytes([b]) * 131072
+        lits = rng.bytes(ll + 5)
+        off = (1 << 26) + 12345 + rng.below(1000)
+        seqs = [(ll, ml, off + 3)]
+        state = {'ll': Tbl(), 'ml': Tbl(), 'of': Tbl()}
+        modes = {'ll': 'predef', 'ml': 'predef', 'of': 'predef'}
+        rep = [1, 4, 8]
+        new = apply_sequences(content, lits, seqs, rep)      # in place on the bytearray
+        if new is None:
+            continue
+        blk = compressed_block(lits, 'raw', seqs, modes, state, 1)
+        if blk is None:
+            continue
+        f = frame_header_bytes(window_log=27, fcs=None, checksum=1) + body + blk
+        h = xxh64(bytes(new))
+        f += (h & 0xFFFFFFFF).to_bytes(4, 'little')
+        out.append({'frame': f, 'length': len(new), 'xxh': h, 'features': ['bits>56', 'of-code-26', 'll%d' % ll, 'ml%d' % ml]})
+    return out
